@@ -27,6 +27,7 @@ type Fact struct {
 	I       int64
 	P       *Sub
 	Q       *Sub // may be nil
+	Spare   *Sub // no rule reads it; the action F.P = F.Spare re-points F.P to it
 	Arr     []int64
 	M       map[string]int64
 	Once    int64 // written only by Mark(), never read by a rule
@@ -87,6 +88,10 @@ func cloneFact(f *Fact) *Fact {
 		q := *f.Q
 		g.Q = &q
 	}
+	if f.Spare != nil {
+		sp := *f.Spare
+		g.Spare = &sp
+	}
 	g.Arr = append([]int64{}, f.Arr...)
 	g.M = map[string]int64{}
 	for k, v := range f.M {
@@ -128,6 +133,10 @@ func (w *World) Snapshot() J {
 	if f.P != nil {
 		s["F.P.V"] = f.P.V
 		s["F.P.S"] = f.P.S
+	}
+	s["F.P@"] = int64(0) // 1 once F.P points to the spare object
+	if f.P != nil && f.P == f.Spare {
+		s["F.P@"] = int64(1)
 	}
 	if f.Q != nil {
 		s["F.Q.V"] = f.Q.V
